@@ -132,6 +132,29 @@ def method_static_cases():
     return cases
 
 
+def struct_param_cases():
+    """by-value struct / array parameters are private copies, also when the caller's variable has the SAME NAME as the parameter
+    and the struct has nested struct / array members; recursion gives every level its own copy"""
+    cases = []
+    HDR = ("struct In { int a; int b; };\nstruct Out { In in; int k; int[2] ys; };\n"
+           "void poke(Out o) {\n    o.in.a = o.in.a + 100;\n    o.k = o.k + 100;\n    o.ys[1] = o.ys[1] + 100;\n    println(\"poke sees\", o.in.a, o.in.b, o.k, o.ys[1]);\n}\n"
+           "void poke2(Out q) {\n    q.in.b = q.in.b + 200;\n    q.k = q.k + 200;\n    println(\"poke2 sees\", q.in.a, q.in.b, q.k);\n}\n"
+           "int walk(Out o, int n) {\n    o.in.a = o.in.a + 1;\n    o.k = o.k + 10;\n    if (n == 0) {\n        return o.in.a * 100 + o.k;\n    }\n    int r = walk(o, n - 1);\n    return r + o.in.a * 10000;\n}\n"
+           "void pin(In in) {\n    in.a = 77;\n    println(\"pin sees\", in.a);\n}\n"
+           "void parr(int[3] ys) {\n    println(\"parr sees\", ys[0]);\n}\n")
+    SET = "    Out o;\n    o.in.a = 1;\n    o.in.b = 2;\n    o.k = 3;\n    o.ys[0] = 4;\n    o.ys[1] = 5;\n"
+
+    def c(cid, body, out):
+        cases.append({"id": cid, "program": HDR + "int main() {\n" + SET + body + "    println(\"END\");\n    return 0;\n}\n", "expect_class": "ok", "expect_stdout": out + "END\n"})
+    c("same-name-nested", "    poke(o);\n    println(\"main has\", o.in.a, o.in.b, o.k, o.ys[1]);\n", "poke sees 101 2 103 105\nmain has 1 2 3 5\n")
+    c("same-name-twice", "    poke(o);\n    poke(o);\n    println(\"main has\", o.in.a, o.k);\n", "poke sees 101 2 103 105\npoke sees 101 2 103 105\nmain has 1 3\n")
+    c("other-name-nested", "    poke2(o);\n    println(\"main has\", o.in.a, o.in.b, o.k);\n", "poke2 sees 1 202 203\nmain has 1 2 3\n")
+    c("recursion-same-name", "    println(walk(o, 2));\n    println(\"main has\", o.in.a, o.k);\n", "%d\nmain has 1 3\n" % ((4 * 100 + 33) + 3 * 10000 + 2 * 10000))
+    # (a nested member passed directly, pin(o.in), is rejected by the implementation: not generated)
+    c("member-type-same-name", "    In in;\n    in.a = 5;\n    in.b = 6;\n    pin(in);\n    println(\"main has\", in.a, o.in.a);\n", "pin sees 77\nmain has 5 1\n")
+    return cases
+
+
 def default_expr_cases():
     """default values that are expressions over EARLIER parameters of the same call (and over globals): evaluated in the callee's
     frame at every call; the values are computed here"""
@@ -162,6 +185,7 @@ def main(a):
     c.suite("targeted", targeted(c.gates), nontrivial=lambda r: hash(r.sexp))
     c.raw_suite("default-expressions", default_expr_cases(), max_report=4)
     c.raw_suite("method-statics", method_static_cases(), max_report=4)
+    c.raw_suite("struct-parameters", struct_param_cases(), max_report=4)
     n = 400 if quick else 30000
     rnd = [gen_core.gen_program(a.seed, 81, k, c.gates, size=20, features={"reuse_names": True, "calls": True})[0]
            for k in range(n)]
